@@ -364,6 +364,11 @@ def main(out_path: str):
     # C10 / F8: does Survey.xml reject a trigger that is not exactly one reference to a visible question? (fixes/F8.diff)
     parts.append("/-- pyxform.survey defines TRIGGER_NOT_VISIBLE_QUESTION (the F8 repair is present) -/\ndef triggerMustBeVisibleQuestion : Bool := "
                  + ("true" if hasattr(survey, "TRIGGER_NOT_VISIBLE_QUESTION") else "false"))
+    # C12: container backends (dataclass fields, parser order, regex sources)
+    import dataclasses as _dc
+    parts.append(list_s("definitionDataFields", [f.name for f in _dc.fields(xls2json_backends.DefinitionData)], "xls2json_backends.DefinitionData field names, in order"))
+    parts.append(list_s("fileTypeOrder", [t.value for t in xls2json_backends.SupportedFileTypes.get_processors()], "SupportedFileTypes.get_processors() keys, in order"))
+    parts.append(dict_ss("backendRegexSources", {n: getattr(xls2json_backends, n).pattern for n in dir(xls2json_backends) if isinstance(getattr(xls2json_backends, n), re.Pattern)}, "module-level regexes of xls2json_backends"))
     parts.append("end Pyxv.Gen\n")
     # several slices may ask for the same table: keep the first definition of each name
     seen, uniq = set(), []
